@@ -17,6 +17,7 @@ import (
 	"net/http"
 	"net/http/httptest"
 	"os"
+	"path/filepath"
 	"sort"
 	"strings"
 	"sync"
@@ -40,22 +41,26 @@ const (
 )
 
 type Op struct {
-	K    string `json:"k"`              // Add Del DelAll B Stall Resume
-	ID   int    `json:"id,omitempty"`   // number of the rule id (Case.IDNames), 0 = exactly the reserved word deleteAll
-	S    int    `json:"s,omitempty"`    // stream 1..3
-	Mode string `json:"mode,omitempty"` // up | down | drop<k> | stall
-	U    int    `json:"u,omitempty"`    // number of the destination URL (one per rule version)
+	K     string `json:"k"`               // Add Del DelAll B Stall Resume
+	ID    int    `json:"id,omitempty"`    // number of the rule id (Case.IDNames), 0 = exactly the reserved word deleteAll
+	S     int    `json:"s,omitempty"`     // stream 1..3
+	Mode  string `json:"mode,omitempty"`  // up | down | drop<k> | stall
+	U     int    `json:"u,omitempty"`     // number of the destination URL (one per rule version)
+	Front string `json:"front,omitempty"` // host scenarios: the front end the operation goes through (rest | admin)
+	File  string `json:"file,omitempty"`  // recording file of the rule: "" none, "ok" a writable file, "bad" a path that cannot be created
 }
 
 type Obs struct {
-	Skip    bool     `json:"skip,omitempty"`    // nothing was observed after this operation (a wide table being filled)
-	Tables  bool     `json:"tables,omitempty"`  // Rules / Clients / Members were read
-	Strange []string `json:"strange,omitempty"` // listed ids that no rule of this history was added with (number 9999 in Rules)
-	Rules   [][3]int `json:"rules"`             // id, stream, url - sorted by id
-	Clients [][2]int `json:"clients"`           // id, url - sorted by id
-	Members []int    `json:"members"`           // 10*url+stream of every client registered with the messages hub, sorted
-	Open    []int    `json:"open"`              // url, once per open connection, sorted
-	Recv    []int    `json:"recv"`              // urls the tagged broadcast of this op arrived at, sorted
+	Skip       bool     `json:"skip,omitempty"`        // nothing was observed after this operation (a wide table being filled)
+	Tables     bool     `json:"tables,omitempty"`      // Rules / Clients / Members were read
+	Strange    []string `json:"strange,omitempty"`     // listed ids that no rule of this history was added with (number 9999 in Rules)
+	RulesOnly  bool     `json:"rules_only,omitempty"`  // host scenarios: only the rule listing is readable (Clients / Members are not)
+	AdminRules [][3]int `json:"admin_rules,omitempty"` // host scenarios: the listing as the admin API gives it (Rules = the REST listing)
+	Rules      [][3]int `json:"rules"`                 // id, stream, url - sorted by id
+	Clients    [][2]int `json:"clients"`               // id, url - sorted by id
+	Members    []int    `json:"members"`               // 10*url+stream of every client registered with the messages hub, sorted
+	Open       []int    `json:"open"`                  // url, once per open connection, sorted
+	Recv       []int    `json:"recv"`                  // urls the tagged broadcast of this op arrived at, sorted
 }
 
 type Case struct {
@@ -223,6 +228,21 @@ func handler(w http.ResponseWriter, r *http.Request) {
 	reg.Lock()
 	pr.conns = append(pr.conns, cr)
 	reg.Unlock()
+	// a destination that talks: it sends frames of its own all the time and never hangs up - it
+	// neither answers a close frame nor closes; the connection ends when its writes start failing
+	talkDone := make(chan struct{})
+	if mode == "talk" {
+		conn.SetCloseHandler(func(int, string) error { return nil })
+		go func() {
+			defer close(talkDone)
+			for k := 0; ; k++ {
+				if err := conn.WriteMessage(websocket.TextMessage, []byte(fmt.Sprintf("talk%d", k))); err != nil {
+					return
+				}
+				time.Sleep(4 * time.Millisecond)
+			}
+		}()
+	}
 	n := 0
 	for {
 		if mode == "stall" {
@@ -247,6 +267,9 @@ func handler(w http.ResponseWriter, r *http.Request) {
 		if dropAfter > 0 && n >= dropAfter {
 			break
 		}
+	}
+	if mode == "talk" {
+		<-talkDone // not before the peer has really gone
 	}
 	reg.Lock()
 	cr.open = false
@@ -550,6 +573,12 @@ func runHistory(c *Case) {
 	}
 
 	n := 0
+	recFiles := []string{}
+	defer func() {
+		for _, f := range recFiles {
+			os.Remove(f)
+		}
+	}()
 	stallEnd := time.Now()
 	for i := 0; i < len(c.Ops); i++ {
 		o := c.Ops[i]
@@ -560,7 +589,15 @@ func runHistory(c *Case) {
 			if o.ID != 0 {
 				newU, atLeast = o.U, snapshot(hist).total[o.U]+1
 			}
-			ok = r.add(rwc.Rule{ID: c.idn(o.ID), Stream: streamNames[o.S], Destination: base + pathOf(hist, o.Mode, o.U)})
+			file := ""
+			switch o.File {
+			case "ok":
+				file = filepath.Join(os.TempDir(), fmt.Sprintf("c16-%d-h%d-u%d.rec", os.Getpid(), hist, o.U))
+				recFiles = append(recFiles, file)
+			case "bad":
+				file = fmt.Sprintf("/nonexistent-dir-c16/h%d-u%d.rec", hist, o.U)
+			}
+			ok = r.add(rwc.Rule{ID: c.idn(o.ID), Stream: streamNames[o.S], Destination: base + pathOf(hist, o.Mode, o.U), File: file})
 		case "Del":
 			ok = r.del(c.idn(o.ID))
 		case "DelAll":
@@ -757,7 +794,7 @@ func (c Case) coq() string {
 		for j, x := range b.Clients {
 			cs[j] = lib.Tuple(lib.N(uint64(x[0])), lib.N(uint64(x[1])))
 		}
-		tables := lib.OptionOf(b.Tables, lib.Tuple(lib.List(rs), lib.List(cs), ns(b.Members)))
+		tables := lib.OptionOf(b.Tables, lib.Tuple(lib.List(rs), lib.OptionOf(!b.RulesOnly, lib.Tuple(lib.List(cs), ns(b.Members)))))
 		obs[i] = lib.OptionOf(!b.Skip, lib.App("mkobs", tables, ns(b.Open), ns(b.Recv)))
 	}
 	return lib.Tuple(lib.List(ops), lib.List(obs), ns(c.reliable()))
@@ -855,10 +892,12 @@ func genHistory(r *lib.Rng, kind string) Case {
 	nextU := 1
 	mode := func() string {
 		switch x := r.Intn(100); {
-		case x < 70:
+		case x < 62:
 			return "up"
-		case x < 82:
+		case x < 73:
 			return "down"
+		case x < 85:
+			return "talk"
 		default:
 			return fmt.Sprintf("drop%d", r.Range(1, 3))
 		}
@@ -891,6 +930,13 @@ func genHistory(r *lib.Rng, kind string) Case {
 			default:
 				o = Op{K: "Add", ID: id, S: r.Range(1, nStreams), Mode: mode(), U: nextU}
 				nextU++
+			}
+			// a recording file now and then: one that can be written, one that cannot even be created
+			switch y := r.Intn(100); {
+			case y < 8:
+				o.File = "ok"
+			case y < 16:
+				o.File = "bad"
 			}
 			if id != 0 {
 				curr[id] = cur{o.S, o.U, o.Mode}
@@ -951,12 +997,21 @@ func genStall(r *lib.Rng) Case {
 }
 
 // ---------------------------------------------------------------- the property's own oracle
+func via(o Op) string {
+	if o.Front == "" {
+		return ""
+	}
+	return "[" + o.Front + "]"
+}
+
 func (c *Case) opString(o Op) string {
 	switch o.K {
 	case "Add":
-		return fmt.Sprintf("Add %s %s ->u%d(%s)", c.idn(o.ID), streamNames[o.S], o.U, o.Mode)
+		return fmt.Sprintf("Add%s %s %s ->u%d(%s)", via(o), c.idn(o.ID), streamNames[o.S], o.U, o.Mode)
 	case "Del":
-		return "Del " + c.idn(o.ID)
+		return "Del" + via(o) + " " + c.idn(o.ID)
+	case "DelAll":
+		return "DelAll" + via(o)
 	case "B":
 		return "B " + streamNames[o.S]
 	case "Stall":
@@ -1063,8 +1118,17 @@ func oracle(c Case, idx int, res *lib.Result) {
 				}
 				bad("listing-not-adds-minus-deletes", o.K, fmt.Sprintf("op %d (%s): %d rules listed, the history says %d: %s; history: %s", i, c.opString(o), len(ob.Rules), len(curr), strings.Join(diff, "; "), hist(i)))
 			}
+			// host scenarios: the admin API's listing must say the same
+			if ob.RulesOnly && fmt.Sprint(ob.AdminRules) != fmt.Sprint(ob.Rules) {
+				bad("front-ends-disagree", o.K+"-"+o.Front, fmt.Sprintf("op %d (%s): GET /api/destinations/all lists (id,stream,url) %v, the admin API lists %v; history: %s", i, c.opString(o), ob.Rules, ob.AdminRules, hist(i)))
+			}
 			// what is registered with the messages hub: one client per current rule, nothing else
 			seenM := map[int]int{}
+			if ob.RulesOnly {
+				for _, cu := range curr {
+					seenM[cu.u] = 1 // not readable on the assembled host
+				}
+			}
 			for _, us := range ob.Members {
 				u, ms := us/10, us%10
 				seenM[u]++
@@ -1150,14 +1214,21 @@ func childJob(p json.RawMessage) json.RawMessage {
 	if err := json.Unmarshal(p, &c); err != nil {
 		panic(err)
 	}
-	runHistory(&c)
+	if c.Kind == "host" {
+		runHost(&c)
+	} else {
+		runHistory(&c)
+	}
 	b, _ := json.Marshal(c)
 	return b
 }
 
 func main() {
-	if childrun.IsChild("child") {
+	if childrun.IsChild("child") || childrun.IsChild("host") {
 		log.SetOutput(ioutil.Discard)
+		if l, err := log.ParseLevel(os.Getenv("VERIF_LOGLEVEL")); err == nil {
+			log.SetLevel(l) // some runs at debug / trace: behaviour must not depend on it
+		}
 		server = httptest.NewServer(http.HandlerFunc(handler))
 		childrun.Serve(childJob)
 	}
@@ -1173,6 +1244,10 @@ func main() {
 		lib.ReadReplayCase(a.Replay, &c)
 		cases = []Case{c}
 	} else {
+		// the assembled host with both of its front ends
+		for i := 0; i < a.Pick(6, 40); i++ {
+			cases = append(cases, genHost(rng.Fork()))
+		}
 		// wide rule tables around the sizes where a bound might sit (1023 .. 1100 rules in the thorough tier only)
 		wide := []int{8, 9, 63, 64, 65, 255, 256, 257}
 		if a.Tier == "thorough" {
@@ -1206,7 +1281,40 @@ func main() {
 	for i, c := range cases {
 		payloads[i], _ = json.Marshal(c)
 	}
-	outs := childrun.RunAll("child", payloads, 8, 60*time.Second, a.Out)
+	// one run in three has the code under test log at debug, one at trace level (output discarded)
+	os.Setenv("VERIF_LOGLEVEL", []string{"panic", "trace", "debug"}[int(a.Seed%3+3)%3])
+	var hostIdx, hubIdx []int
+	for i, c := range cases {
+		if c.Kind == "host" {
+			hostIdx = append(hostIdx, i)
+		} else {
+			hubIdx = append(hubIdx, i)
+		}
+	}
+	pick := func(idx []int) []json.RawMessage {
+		ps := make([]json.RawMessage, len(idx))
+		for j, i := range idx {
+			ps[j] = payloads[i]
+		}
+		return ps
+	}
+	outs := make([]childrun.Outcome, len(cases))
+	var wg sync.WaitGroup
+	wg.Add(2)
+	go func() {
+		defer wg.Done()
+		// one vw.Stream() per process and delete-all in the histories: one history at a time
+		for j, o := range childrun.RunAll("host", pick(hostIdx), 1, 60*time.Second, a.Out) {
+			outs[hostIdx[j]] = o
+		}
+	}()
+	go func() {
+		defer wg.Done()
+		for j, o := range childrun.RunAll("child", pick(hubIdx), 8, 60*time.Second, a.Out) {
+			outs[hubIdx[j]] = o
+		}
+	}()
+	wg.Wait()
 	for i, o := range outs {
 		if o.Result != nil {
 			var c Case
